@@ -309,7 +309,7 @@ def _read_via_decoder(vpath, name):
         return pre + f.read(alen)
 
 
-SIZES = [0, 1, 3, 4, 5, 1023, 1024, 1025, 65535, 65536, 70000]
+SIZES = [0, 1, 3, 4, 5, 1023, 1024, 1025, 65535, 65536, 70000, 300000]
 
 
 def _history(spec):
@@ -419,7 +419,7 @@ NAMES = ['a.txt', 'dir/b.txt', 'dir/sub/c.dat', 'noext', 'dir/noext2', 'x.tar.gz
 def b_histories(ctx):
     jobs = []
     for directory in (True, False):
-        for limit in (None, 0, 4, 1024):
+        for limit in (None, 0, 4, 1024, 65535, 65536, 100000):
             for arch in (None, 0, 1):
                 for size in SIZES:
                     jobs.append((directory, limit, (('add', 'dir/b.txt', size, arch),)))
@@ -430,7 +430,7 @@ def b_histories(ctx):
     n = 300 if not ctx.thorough else 6000
     for _ in range(n):
         directory = ctx.rng.random() < 0.7
-        limit = ctx.rng.choice([None, 0, 4, 1024])
+        limit = ctx.rng.choice([None, 0, 4, 1024, 65535, 65536, 1 << 20])
         ops = []
         for _ in range(ctx.rng.randint(2, 6)):
             k = ctx.rng.choice(['add', 'add', 'write', 'write', 'del', 'save', 'reopen'])
